@@ -3,7 +3,6 @@
 mod enc;
 mod cli;
 mod laws;
-mod prims;
 mod sem;
 mod syn;
 mod wide;
@@ -14,7 +13,6 @@ fn main() {
         Some("sem") if args.len() == 4 => sem::run(&args[2], &args[3]),
         Some("syn") if args.len() == 4 => syn::run(&args[2], &args[3]),
         Some("laws") if args.len() == 4 => laws::run(&args[2], &args[3]),
-        Some("prims") if args.len() == 4 => prims::run(&args[2], &args[3]),
         Some("wideslice") if args.len() == 3 => wide::run(&args[2]),
         Some("chars") if args.len() == 3 => std::fs::read_to_string(&args[2]).map_err(|e| e.to_string()).and_then(|t| {
             let v: serde_json::Value = serde_json::from_str(&t).map_err(|e| e.to_string())?;
